@@ -1,7 +1,7 @@
 """Rules over http/http.c shared by C08 (safety, termination, limits) and C09
 (exact decoding, request verbatim)."""
 from .. import cdb, ir, lin, own
-from ..ir import norm, show, root_var, subterms
+from ..ir import norm, show, root_var, subterms, _pure
 from ..dataflow import Solver, cond_atoms
 from ..facts import Facts
 
@@ -655,6 +655,48 @@ def span_rule(prog, rep):
                     rep.check(ok, "STRSAFE", "%s[%s + 1] in %s" % (show(sarg), show(v), f.name), e.where,
                               "%s is the length of the initial span of %s; the position after it is inside the string only when %s[%s] is not the terminator, "
                               "which no dominating test establishes here" % (show(v), show(sarg), show(sarg), show(v)), function=f.name, construct="span-plus-one")
+    return n
+
+
+# ---------------------------------------------------------------------------
+def borrow_rule(prog, rep):
+    """W8: the request description handed to http_request() is the caller's and may be gone when the call returns -- the
+    interface asks only for the request *body* to stay valid.  So the constructor keeps no pointer into it in the request it
+    builds, other than the body: every store into the allocated request whose value is a pointer taken from the `request`
+    parameter must be the body pointer.  (Needs no member names of the request structure: it holds however the fields are
+    called, and is therefore decided even when a rule anchor has been renamed.)"""
+    u = prog.unit(UNIT)
+    n = 0
+    for f in u.funcs:
+        if f.file != UNIT:
+            continue
+        rq = [p for p in f.params if "http_request" in (p.get("ty") or "") and (u.types.get(p["ty"]) or {}).get("kind") == "ptr"]
+        if not rq:
+            continue
+        rp = ("v", rq[0]["name"], rq[0]["id"])
+        # locals that hold a freshly allocated object (the request being built)
+        fresh = set()
+        for e in f.all_elems():
+            if e.is_assign and e.op == "=" and norm(e.kid(0))[0] == "v":
+                r = e.kid(1).strip() if e.kid(1) is not None else None
+                if r is not None and r.cls == "CallExpr" and r.callee in ("malloc", "calloc"):
+                    fresh.add(norm(e.kid(0)))
+        for e in f.all_elems():
+            if not (e.is_assign and e.op == "="):
+                continue
+            lhs = norm(e.kid(0))
+            if lhs[0] != "." or root_var(lhs) is None or ("v",) + tuple(root_var(lhs)[1:]) not in fresh:
+                continue
+            rhs = norm(e.kid(1))
+            if not any(t == rp for t in subterms(rhs)) or not _pure(rhs):
+                continue
+            if (u.types.get(e.kid(0).ty) or {}).get("kind") != "ptr":
+                continue
+            n += 1
+            ok = rhs[0] == "." and rhs[2] == "body" and rhs[1] == ("*", rp)
+            rep.check(ok, "W8-borrow", "%s = %s in %s" % (show(lhs), show(rhs), f.name), e.where,
+                      "a pointer into the caller's request description is kept in the request object; only the body is promised to outlive the call, "
+                      "so anything read through this later reads memory the caller may have reused or freed", function=f.name, construct="borrowed:" + show(rhs))
     return n
 
 
